@@ -182,7 +182,7 @@ def make_request(rnd, ctx, J, CH):
     """Build a request dict (JSON-able) from the current model state."""
     network = ctx.network
     fmin, fmax, dust = fee_limits(network)
-    min_confirms = rnd.choice([0, 1, 1, 1, 3, 6])
+    min_confirms = rnd.choice([0, 1, 1, 3, 3, 6])
     spendable = J.wallet_unspent(min_confirms)
     bal = sum(u['value'] for u in spendable.values())
     from vf import wallet_env
@@ -231,7 +231,7 @@ def make_request(rnd, ctx, J, CH):
     elif fm == 'per_kb':
         req['fee_per_kb'] = int(rnd.choice([fmin * 3, fmin * 20]))
     req['n_change'] = rnd.choice([1, 1, 0, 2, 3, 5])
-    if min_confirms >= 3 and kind in ('send_to', 'send') and rnd.random() < 0.6:
+    if min_confirms >= 3 and kind in ('send_to', 'send') and rnd.random() < 0.8:
         # deep confirmation requirement together with the automatic-fee / random-change path (fee re-estimation)
         req['fee_mode'] = 'auto'
         req.pop('fee', None)
@@ -317,6 +317,12 @@ def run_wallet(case, col):
         last_op = CH.fund(rnd.choice(addrs), v, network, confirmed=rnd.random() < 0.8, same_tx_as=last_op if rnd.random() < 0.35 else None)
         if rnd.random() < 0.3:
             CH.mine(rnd.choice([1, 2, 5]))
+    if rnd.random() < 0.5 and n_utxo >= 2:
+        # everything so far gets deep, then one large shallow output arrives: requests with a confirmation requirement
+        # must leave it alone even though it alone would cover them
+        CH.mine(rnd.choice([3, 6, 10]))
+        total = sum(u['value'] for u in CH.unspent(set(addrs)).values())
+        CH.fund(rnd.choice(addrs), 2 * total + 12345, network, confirmed=True)
     try:
         w.utxos_update()
     except Exception as e:
